@@ -1,4 +1,4 @@
-// Demonstrations of the genuine defects (D1..D17, DESIGN.md §4) found in
+// Demonstrations of the genuine defects (D1..D18, DESIGN.md §4) found in
 // the pinned blugelabs/ice tree while deriving the static rules.  Triage only:
 // the *checks* are the static rules of icecheck.  Copy this file into a scratch
 // copy of /repo (package ice) and run `go test -run TestDefect`; every test
@@ -791,5 +791,71 @@ func TestDefectD17MixedDocValueHeader(t *testing.T) {
 				t.Fatalf("VisitDocumentValues(%d) after a reported storage error returned wrong terms %q", doc, terms)
 			}
 		}()
+	}
+}
+
+// D18 (C12, C19): found by the second bug hunt, confirmed and repaired.
+
+func TestDefectD18TruncatedSourceReportedAsSuccess(t *testing.T) {
+	docs := []segment.Document{
+		&FakeDocument{
+			NewFakeField("_id", "a", true, false, false),
+			NewFakeField("body", "some text to store", true, true, true),
+		},
+		&FakeDocument{
+			NewFakeField("_id", "b", true, false, false),
+			NewFakeField("body", "some more text to store", true, true, true),
+		},
+	}
+	built, _, err := New(docs, func(_ string, n int) float32 { return 1 / float32(n) })
+	if err != nil {
+		t.Fatal(err)
+	}
+	var img bytes.Buffer
+	if _, err = built.WriteTo(&img, nil); err != nil {
+		t.Fatal(err)
+	}
+
+	f, err := ioutil.TempFile("", "huntG3D2")
+	if err != nil {
+		t.Fatal(err)
+	}
+	defer os.Remove(f.Name())
+	defer f.Close()
+	if _, err = f.Write(img.Bytes()); err != nil {
+		t.Fatal(err)
+	}
+	data, err := segment.NewDataFile(f)
+	if err != nil {
+		t.Fatal(err)
+	}
+	seg, err := Load(data)
+	if err != nil {
+		t.Fatal(err)
+	}
+
+	// healthy: the loaded segment re-persists byte for byte
+	var again bytes.Buffer
+	n, err := seg.WriteTo(&again, nil)
+	if err != nil || n != int64(img.Len()) || !bytes.Equal(again.Bytes(), img.Bytes()) {
+		t.Fatalf("healthy re-persist: n=%d err=%v equal=%v", n, err, bytes.Equal(again.Bytes(), img.Bytes()))
+	}
+
+	// the file loses its second half under the loaded segment
+	if err = f.Truncate(int64(img.Len() / 2)); err != nil {
+		t.Fatal(err)
+	}
+	// reads do fail now
+	if err2 := seg.VisitStoredFields(0, func(string, []byte) bool { return true }); err2 == nil {
+		if _, err3 := seg.Dictionary("body"); err3 == nil {
+			t.Log("note: plain reads still work on the truncated file")
+		}
+	}
+
+	var out bytes.Buffer
+	n, err = seg.WriteTo(&out, nil)
+	if err == nil {
+		t.Errorf("WriteTo of a segment whose storage ends early reported success: returned n=%d, wrote %d bytes, the intact segment file has %d bytes",
+			n, out.Len(), img.Len())
 	}
 }
